@@ -228,6 +228,7 @@ func TestVerifC19Live(t *testing.T) {
 	}
 	// interval schedules, cancelled after a while
 	for i := 0; i < 6; i++ {
+		i := i
 		iv := time.Duration(30+rng.intn(60)) * time.Millisecond
 		o := &c19LiveOut{Kind: "every", Ref: fmt.Sprintf("c19l-every-%d", i), DelayNs: int64(iv), Marks: map[string]int64{}, Errs: map[string]string{}}
 		add(o)
@@ -236,6 +237,12 @@ func TestVerifC19Live(t *testing.T) {
 			defer wg.Done()
 			o.CallNs = since()
 			o.Errs["schedule"] = c19Class(sys.Schedule(ctx, &c19Msg{Ref: o.Ref}, pid, iv, WithReference(o.Ref)))
+			if i%2 == 1 {
+				// registering again under a reference that is still live is refused and must leave the live schedule alone
+				time.Sleep(iv * 2)
+				o.Errs["duplicate"] = c19Class(sys.Schedule(ctx, &c19Msg{Ref: o.Ref + "#dup"}, pid, iv, WithReference(o.Ref)))
+				o.Errs["duplicate_once"] = c19Class(sys.ScheduleOnce(ctx, &c19Msg{Ref: o.Ref + "#dup"}, pid, iv, WithReference(o.Ref)))
+			}
 			time.Sleep(iv*10 + iv/2)
 			o.Errs["cancel"] = c19Class(sys.CancelSchedule(o.Ref))
 			o.Marks["cancel_returned"] = since()
@@ -332,6 +339,7 @@ type c19ClaimOp struct {
 type c19ClaimCase struct {
 	Id    int
 	Nodes int
+	Zones []int // per node: offset of the node's process-local time zone from UTC, seconds
 	TTLs  int64 // seconds
 	Ops   []c19ClaimOp
 }
@@ -377,7 +385,12 @@ func TestVerifC19Claim(t *testing.T) {
 		}
 		res := c19ClaimResult{Id: cs.Id}
 		now := time.Now()
+		savedLocal := time.Local
 		for _, op := range cs.Ops {
+			// the node handling this tick runs in its own process-local time zone
+			if op.Node < len(cs.Zones) {
+				time.Local = time.FixedZone(fmt.Sprintf("verif%+d", cs.Zones[op.Node]), cs.Zones[op.Node])
+			}
 			run := now.Add(time.Duration(op.RunSec) * time.Second).UnixNano()
 			claim := &scheduleFireClaim{reference: fmt.Sprintf("c19ref%d", op.Ref), ttl: time.Duration(cs.TTLs) * time.Second}
 			before := len(reg.calls)
@@ -394,6 +407,7 @@ func TestVerifC19Claim(t *testing.T) {
 			res.Codes = append(res.Codes, code)
 			res.RunNs = append(res.RunNs, run)
 		}
+		time.Local = savedLocal
 		res.Keys = reg.calls
 		res.TTLsNs = reg.ttls
 		out.put(res)
@@ -466,5 +480,113 @@ func TestVerifC19Claim(t *testing.T) {
 		}
 		res.DistinctKeys = len(keys)
 		rout.put(res)
+	}
+}
+
+// ---------------------------------------------------------------- concurrent operations on one reference
+
+type c19RaceRef struct {
+	Ref             string
+	Rounds          int
+	Orphaned        bool   // a round ended with a live quartz job whose reference the scheduler no longer knows
+	OrphanRound     int
+	CancelAfter     string // result of CancelSchedule right after that round
+	DeliveredAfter  int    // deliveries received later than 30 ms after that CancelSchedule returned (interval 10 ms, 200 ms window)
+	FinalCancel     string
+	FinalCancel2    string
+	FinalDelivered  int // deliveries received later than 30 ms after the last CancelSchedule returned
+	FinalJobPresent bool
+}
+
+// TestVerifC19Race: CancelSchedule(R) and Schedule(R) are issued at the same time from two goroutines,
+// over and over. Whatever the order in which they take effect, a CancelSchedule issued afterwards
+// must find the schedule (or find nothing at all) and the ticks must stop.
+func TestVerifC19Race(t *testing.T) {
+	out := newVerifWriter(t, "c19_oprace_out.jsonl")
+	defer out.close()
+	ctx := context.Background()
+	sysI, err := NewActorSystem("verifC19r", WithLogger(log.DiscardLogger))
+	if err != nil {
+		t.Fatal(err)
+	}
+	if err := sysI.Start(ctx); err != nil {
+		t.Fatal(err)
+	}
+	defer func() { _ = sysI.Stop(ctx) }()
+	time.Sleep(50 * time.Millisecond)
+	sched := sysI.(*actorSystem).scheduler
+	recv := &c19Recv{}
+	pid, err := sysI.Spawn(ctx, "c19racerecv", recv, WithLongLived())
+	if err != nil {
+		t.Fatal(err)
+	}
+	budget := time.Duration(verifEnvInt("VERIF_C19_RACE_MS", 2500)) * time.Millisecond
+	nrefs := 6
+	results := make([]c19RaceRef, nrefs)
+	var wg sync.WaitGroup
+	const iv = 10 * time.Millisecond
+	deliveredAfter := func(ref string, t0 time.Time) int {
+		n := 0
+		for _, tm := range recv.times(ref) {
+			if tm.After(t0.Add(30 * time.Millisecond)) {
+				n++
+			}
+		}
+		return n
+	}
+	for ri := 0; ri < nrefs; ri++ {
+		wg.Add(1)
+		go func(ri int) {
+			defer wg.Done()
+			ref := fmt.Sprintf("c19oprace%d", ri)
+			res := c19RaceRef{Ref: ref}
+			key := quartz.NewJobKey(ref)
+			live := func() (jobPresent, known bool) {
+				_, err := sched.quartzScheduler.GetScheduledJob(key)
+				_, known = sched.scheduledKeys.Get(ref)
+				return err == nil, known
+			}
+			_ = sysI.Schedule(ctx, &c19Msg{Ref: ref}, pid, iv, WithReference(ref))
+			deadline := time.Now().Add(budget)
+			for time.Now().Before(deadline) && !res.Orphaned {
+				res.Rounds++
+				start := make(chan struct{})
+				var w2 sync.WaitGroup
+				w2.Add(2)
+				go func() { defer w2.Done(); <-start; _ = sysI.CancelSchedule(ref) }()
+				go func() {
+					defer w2.Done()
+					<-start
+					_ = sysI.Schedule(ctx, &c19Msg{Ref: ref}, pid, iv, WithReference(ref))
+				}()
+				close(start)
+				w2.Wait()
+				job, known := live()
+				if job && !known {
+					// found by looking inside; shown through the public API
+					res.Orphaned, res.OrphanRound = true, res.Rounds
+					res.CancelAfter = c19Class(sysI.CancelSchedule(ref))
+					t0 := time.Now()
+					time.Sleep(200 * time.Millisecond)
+					res.DeliveredAfter = deliveredAfter(ref, t0)
+					// repair so that the final phase starts from a known reference
+					_ = sysI.Schedule(ctx, &c19Msg{Ref: ref}, pid, iv, WithReference(ref))
+				}
+				if !job {
+					_ = sysI.Schedule(ctx, &c19Msg{Ref: ref}, pid, iv, WithReference(ref))
+				}
+			}
+			res.FinalCancel = c19Class(sysI.CancelSchedule(ref))
+			res.FinalCancel2 = c19Class(sysI.CancelSchedule(ref))
+			t0 := time.Now()
+			time.Sleep(200 * time.Millisecond)
+			res.FinalDelivered = deliveredAfter(ref, t0)
+			res.FinalJobPresent, _ = live()
+			results[ri] = res
+		}(ri)
+	}
+	wg.Wait()
+	for i := range results {
+		out.put(results[i])
 	}
 }
